@@ -171,6 +171,14 @@ def r10c(ctx):
         ctx.report("R10c", g, g.node, "Element.serialize", "Element.serialize no longer serialises a private copy (lxml serialisation side effects reach the tree)")
 
 
+def enclosing_loops_of(n):
+    from ..paths import enclosing_loops
+    try:
+        return enclosing_loops(n)
+    except Exception:  # noqa: BLE001
+        return []
+
+
 def r10d(ctx):
     repo = ctx.repo
     ctx.rule("R10d", "Container.clone pre-loads every packaging that get_part loads lazily, before deepcopy; the clone has no path", floor=3)
@@ -207,6 +215,21 @@ def r10d(ctx):
         ctx.report("R10d", f, f.node, f"lazy {sorted(lazy)} / pre-loaded {sorted(pre)}",
                    f"Container.get_part loads parts on demand for packagings {sorted(lazy)} but Container.clone pre-loads only {sorted(pre)} before "
                    f"detaching the clone from its path: a clone of a {sorted(lazy - pre)} container has no parts and cannot load them")
+    # the pre-load is decided by the packaging (and the presence of a path) alone: a comparison of counts or any other shortcut skips members that were never read
+    for c in [x for x in walk_no_nested(f.node) if isinstance(x, ast.Call) and call_name(x) in ("_get_all_zip_part", "_get_folder_part", "_get_zip_part")
+              or isinstance(x, ast.Call) and call_name(x) == "get_part" and x.lineno < dc[0].lineno]:
+        extra = [t for t, _pol in structural_guards(c, stop=f.node)
+                 if not any(isinstance(x, ast.Attribute) and (x.attr.endswith("__packaging") or x.attr in ("path", "packaging")) for x in ast.walk(t))
+                 and not (isinstance(t, ast.Compare) and len(t.ops) == 1 and isinstance(t.ops[0], (ast.In, ast.NotIn)) and isinstance(t.comparators[0], ast.Attribute)
+                          and t.comparators[0].attr.endswith("__parts"))]
+        loops = [lp for lp in enclosing_loops_of(c) if not any(isinstance(x, ast.Call) and call_name(x) in ("_get_folder_parts", "get_parts") or isinstance(x, ast.Attribute) and x.attr == "parts"
+                                                             for x in ast.walk(lp.iter))]
+        okp = not extra
+        ctx.instance("R10d", f"{f.file}:{f.ident}", f"`{norm(c, 30)}` runs whenever the packaging loads lazily", ok=okp, nontrivial=True, line=c.lineno)
+        if not okp:
+            ctx.report("R10d", f, c, f"{norm(c, 40)} only under `{norm(extra[0], 40)}`",
+                       f"Container.clone pre-loads the members only when `{norm(extra[0], 50)}`: parts added in memory count like members that were read, so the shortcut can skip members "
+                       f"never read — the path-less clone cannot load them any more and a save of the clone silently lacks them")
     nopath = [n for n in walk_no_nested(f.node) if isinstance(n, ast.Assign) and isinstance(n.targets[0], ast.Attribute) and n.targets[0].attr == "path"
               and isinstance(n.value, ast.Constant) and n.value.value is None]
     ok = bool(nopath) and nopath[0].lineno > dc[0].lineno
@@ -523,6 +546,17 @@ def r10h(ctx):
                     elems.add(lp.target.id)
                     origin[lp.target.id] = origin.get(src[0], src[0])
             rebound = {t.id for a in walk_no_nested(f.node) if isinstance(a, ast.Assign) for t in a.targets if isinstance(t, ast.Name)}
+            # locals that hold the caller's items in another wrapping: `it = iter(cells)`, `cell = cells[y]`, `pairs = zip(rows, cells)`
+            for _ in range(3):
+                for a in walk_no_nested(f.node):
+                    if isinstance(a, ast.Assign) and len(a.targets) == 1 and isinstance(a.targets[0], ast.Name) and a.targets[0].id not in elems:
+                        v = a.value
+                        wraps = isinstance(v, ast.Call) and call_name(v) in ("iter", "list", "tuple", "zip", "enumerate", "reversed", "next") or isinstance(v, ast.Subscript)
+                        src = [y.id for y in ast.walk(v) if isinstance(y, ast.Name) and y.id in elems]
+                        if wraps and src:
+                            elems.add(a.targets[0].id)
+                            origin[a.targets[0].id] = origin.get(src[0], src[0])
+                            rebound.discard(a.targets[0].id)
             infos.append((cname, c, name, f, plist, elems, origin, rebound))
 
     def handed_over(c, f, elems, rebound):
@@ -539,6 +573,11 @@ def r10h(ctx):
             if kw_false:
                 args = list(call.args) + [k.value for k in call.keywords if k.arg != "clone"]
                 out += [(call, a) for a in args if isinstance(a, ast.Name) and a.id in elems and a.id not in rebound]
+                for a in args:
+                    if isinstance(a, (ast.Call, ast.Subscript)) and (not isinstance(a, ast.Call) or call_name(a) == "next"):
+                        inner = [y for y in ast.walk(a) if isinstance(y, ast.Name) and y.id in elems and y.id not in rebound]
+                        if inner:
+                            out.append((call, inner[0]))
             elif cn in attach:
                 out += [(call, a) for i, a in enumerate(call.args) if i in attach[cn] and isinstance(a, ast.Name) and a.id in elems and a.id not in rebound]
         return out
@@ -584,6 +623,44 @@ def _fresh_local(f, name_node) -> bool:
                and isinstance(a.value.func, ast.Name) and a.value.func.id[:1].isupper() for a in walk_no_nested(f.node))
 
 
+def r10i(ctx):
+    """A part keeps hold of its tree in one place.
+
+    XmlPart.clone copies the attributes of a part one by one: the parsed tree is deep-copied, the root wrapper (derived from the tree) is
+    reset and rebuilt on demand, the container is cloned.  Any *other* attribute that holds a node of the tree — a cached `office:meta`
+    element, a remembered body — is deep-copied on its own and becomes a detached copy: the clone's setters that go through it write into
+    a node that is not in the clone's tree, and what they add is lost.  Rule: no method of XmlPart or of a class derived from it stores a
+    tree value (the result of get_element(s), root, body, an lxml node) in an attribute of self, except the two attributes clone handles.
+    """
+    repo = ctx.repo
+    ctx.rule("R10i", "XmlPart classes keep no node of their tree in an instance attribute other than the tree and root that clone handles", floor=20)
+    base = repo.cls("XmlPart")
+    handled = {"__tree", "__root", "_XmlPart__tree", "_XmlPart__root", "container", "part_name"}
+    TREE_CALLS = ("get_element", "get_elements", "get_meta_body", "get_body", "getroot", "from_tag", "xpath", "_get_tree")
+    for c in repo.all_classes():
+        if base not in c.mro:
+            continue
+        for name, fs in sorted(c.methods.items()):
+            for f in fs:
+                if f.cls is not c or name in ("clone",):
+                    continue
+                bad = []
+                for a in walk_no_nested(f.node):
+                    tg = a.targets if isinstance(a, ast.Assign) else [a.target] if isinstance(a, ast.AnnAssign) and a.value is not None else []
+                    for t in tg:
+                        if isinstance(t, ast.Attribute) and isinstance(t.value, ast.Name) and t.value.id == "self" and t.attr not in handled:
+                            v = a.value
+                            treeish = any(isinstance(x, ast.Call) and call_name(x) in TREE_CALLS for x in ast.walk(v)) or \
+                                any(isinstance(x, ast.Attribute) and x.attr in ("root", "body", "meta_body") and isinstance(x.value, ast.Name) and x.value.id == "self" for x in ast.walk(v))
+                            if treeish:
+                                bad.append(a)
+                ctx.instance("R10i", f"{f.file}:{f.ident}", "stores no node of the tree on self", ok=not bad, nontrivial=bool(bad), line=f.node.lineno)
+                for a in bad[:1]:
+                    ctx.report("R10i", f, a, norm(a, 60),
+                               f"{f.ident} keeps a node of the part's tree in an attribute of the part (`{norm(a, 50)}`): XmlPart.clone deep-copies that attribute separately from the "
+                               f"tree, so in the clone it is a detached copy — what the clone's setters add through it never reaches the clone's document")
+
+
 def run(ctx):
     r10a(ctx)
     r10b(ctx)
@@ -592,6 +669,7 @@ def run(ctx):
     r10f(ctx)
     r10g(ctx)
     r10h(ctx)
+    r10i(ctx)
     r10e(ctx)
 
 
@@ -607,6 +685,12 @@ SEEDS = [
     Seed("Table.append hands the caller's row over without a copy", "fault", _T, "            self.append_row(something)", "            self.append_row(something, clone=False)", "R10h"),
     Seed("Table.append hands the caller's row over through a private helper", "fault", _T, "            self.append_row(something)", "            self._append_live(something)", "R10h",
          edits=[(_T, "    @property\n    def height(self) -> int:", "    def _append_live(self, row: Row) -> None:\n        self.append_row(row, clone=False)\n\n    @property\n    def height(self) -> int:")]),
+    Seed("set_column_cells attaches the caller's cells through an iterator", "fault", _T,
+         "            row.set_cell(x, next(cells_iterator))\n            self.set_row(y, row)", "            row.set_cell(x, next(cells_iterator), clone=False)\n            self.set_row(y, row, clone=False)", "R10h"),
+    Seed("Container.clone pre-loads the zip only when the table looks short", "fault", _CT,
+         "            self._get_all_zip_part()\n", "            if len(self.__parts) < len(self.get_parts()):\n                self._get_all_zip_part()\n", "R10d"),
+    Seed("Meta caches its office:meta element on the part", "fault", "src/odfdo/meta.py",
+         '        return self.get_element("//office:meta")', '        if getattr(self, "_meta_body", None) is None:\n            self._meta_body = self.get_element("//office:meta")\n        return self._meta_body', "R10i"),
     Seed("Table.append copies explicitly", "neutral", _T, "            self.append_row(something)", "            self.append_row(something, clone=True)"),
     Seed("Row.set_cells fast path no longer asks for clone is False", "fault", _R,
          "        if start == 0 and clone is False and (len(cells) >= self.width):", "        if start == 0 and len(cells) >= self.width:", "R10h"),
